@@ -515,8 +515,9 @@ func CtxCause(ctx context.Context) error {
 // ---------- summaries of pure library kernels (symbolic mode: redirected here) ----------
 // The real functions fold the 32-bit one's-complement sum in a data-dependent loop ("while csum > 0xffff").
 // Two folds are enough for every 32-bit value and a fold is the identity below 0x10000, so the loop equals
-// fold(fold(csum)); the equivalence with the real code is itself checked by the solver (selftest harnesses
-// Verif_Self_fold / Verif_Self_ip4csum run the real functions with the redirect switched off).
+// fold(fold(csum)). The equivalence with the real loops is by reading and by arithmetic (a 32-bit value folds to at
+// most 0x1fffe, which folds to at most 0xffff), not machine-checked: the real functions are unexported and the
+// planned self-test harnesses were not built.
 
 func fold16(c uint32) uint32 { return (c >> 16) + (c & 0xffff) }
 
